@@ -4,6 +4,7 @@ mod catalogue;
 mod c17;
 mod codec;
 mod compress;
+mod mono;
 mod statics;
 mod sxv;
 mod dynval;
@@ -33,6 +34,11 @@ fn main() {
         }
         "contend" => statics::contend(rest),
         "deep" => statics::deep(rest),
+        "monotypes" => {
+            for t in mono::MONO_TYPES {
+                println!("{t}");
+            }
+        }
         "compress" => compress::cases(rest),
         "c17" => c17::run(rest),
         "graph" => graph::cases(rest),
